@@ -7,6 +7,39 @@ by = collections.OrderedDict()
 for e in d['findings']:
     if e['status'] == 'fixed' and e.get('commit'):
         by.setdefault(e['commit'][:7], []).append(e)
+W = '/tmp/mkreverts-w'
+ENV = dict(os.environ, GOPROXY='off', GOFLAGS='-mod=mod')
+
+def builds(diff):
+    subprocess.run(['git', '-C', W, 'checkout', '-q', '--', '.'])
+    subprocess.run(['git', '-C', W, 'apply', '-'], input=diff, text=True, check=True)
+    r = subprocess.run(['go', 'build', './...'], cwd=W, env=ENV, capture_output=True, text=True)
+    return r.returncode == 0
+
+def buildable(diff):
+    """A later fix may use an import that this fix introduced: the reverse patch then keeps the import line."""
+    if builds(diff):
+        return diff, ''
+    import re
+    # drop hunks that only remove import lines
+    parts = re.split(r'(?m)^(?=@@ )', diff)
+    kept = [parts[0]]
+    dropped = 0
+    for hunk in parts[1:]:
+        body = [l for l in hunk.split('\n')[1:] if l[:1] in ('+', '-')]
+        if body and all(re.match(r'^-\s*"[\w/.]+"$', l) for l in body):
+            dropped += 1
+            continue
+        kept.append(hunk)
+    d2 = ''.join(kept)
+    if dropped and builds(d2):
+        return d2, 'reverse patch without the hunk removing an import that a later fix still uses\n'
+    return diff, 'DOES NOT BUILD on HEAD\n'
+
+subprocess.run(['git', '-C', '/repo', 'worktree', 'remove', '--force', W], capture_output=True)
+subprocess.check_call(['git', '-C', '/repo', 'worktree', 'add', '-q', '--detach', W, 'HEAD'])
+import atexit
+atexit.register(lambda: subprocess.run(['git', '-C', '/repo', 'worktree', 'remove', '--force', W], capture_output=True))
 for f in glob.glob('/verif/selftest/reverts/*.diff'):
     os.remove(f)
 log = subprocess.run(['git', '-C', '/repo', 'log', '--format=%h %s', '--grep=^fix:'], capture_output=True, text=True).stdout.strip().split('\n')
@@ -16,5 +49,6 @@ for line in log:
     diff = subprocess.run(['git', '-C', '/repo', 'diff', h, h + '~1', '--', ':!*_test.go'], capture_output=True, text=True).stdout
     ok = subprocess.run(['git', '-C', '/repo', 'apply', '--check', '-'], input=diff, capture_output=True, text=True).returncode == 0
     if ok and props:
-        open(f"/verif/selftest/reverts/{'-'.join(props)}-{h}.diff", 'w').write(diff)
+        diff, note = buildable(diff)
+        open(f"/verif/selftest/reverts/{'-'.join(props)}-{h}.diff", 'w').write(note + diff)
     print(h, props, 'ok' if ok else 'does not apply to HEAD any more (later fix touches the same lines)', subj[:60])
